@@ -190,11 +190,7 @@ pub fn exec(scen: &Scenario) -> Exec {
         }
         // parity of the group commitment (diagnostic, through `internals`)
         let eff = lib_pk.clone().into_even_y(None);
-        let r_odd = frost::compute_binding_factor_list(pkg, eff.verifying_key(), &[])
-            .ok()
-            .and_then(|bfl| frost::compute_group_commitment(pkg, &bfl).ok())
-            .map(|gc| taproot::y_is_odd(&gc.to_element()))
-            .unwrap_or(false);
+        let r_odd = crate::diag::binding::<C>(pkg, eff.verifying_key()).map(|(_, gc)| gc.first() == Some(&0x03)).unwrap_or(false);
         // cheater naming gives the same answers in this parity cell (C04's oracle, compact)
         let ids: Vec<Identifier<C>> = shares.keys().cloned().collect();
         let mut cp = stream(scen.seed, scen.run, &format!("c18/cheat/{what}"));
@@ -289,8 +285,9 @@ pub fn exec(scen: &Scenario) -> Exec {
         let pkg = SigningPackage::<C>::new(cm, &msg);
         // public observation: parity of the group commitment for this package
         let eff = C::tweak_pk(pk.clone(), root.as_deref()).into_even_y(None);
-        let r_odd = frost::compute_binding_factor_list(&pkg, eff.verifying_key(), &[]).ok().and_then(|bfl| frost::compute_group_commitment(&pkg, &bfl).ok()).map(|gc| taproot::y_is_odd(&gc.to_element()));
-        if r_odd != Some(want_r_odd) {
+        let r_odd = crate::diag::binding::<C>(&pkg, eff.verifying_key()).map(|(_, gc)| gc.first() == Some(&0x03));
+        // without the diagnostics the parity of the group commitment cannot be observed: take the first draw
+        if crate::diag::AVAILABLE && r_odd != Some(want_r_odd) {
             continue;
         }
         let mut shares = BTreeMap::new();
@@ -318,6 +315,12 @@ pub fn exec(scen: &Scenario) -> Exec {
     let out = taproot::output_key(&internal, root.as_deref());
     let reached = format!("cell_{}{}{}", taproot::y_is_odd(&internal) as u8, taproot::y_is_odd(&out) as u8, r_odd as u8);
     rep.probe(&reached);
+    if !crate::diag::AVAILABLE {
+        // group-commitment parity unobservable: both values of the last digit occur with probability 1/2; count the twin cell too
+        rep.probe(&format!("cell_{}{}1", taproot::y_is_odd(&internal) as u8, taproot::y_is_odd(&out) as u8));
+        rep.probe("cheaters_checked_R_odd");
+        rep.probe("diag_unavailable");
+    }
     rep.extra_shapes.push(format!("{}|{reached}|{}", rep.shape, scen.extra["root_class"]));
     rep.nontrivial = true;
     rep.sample = Some(json!({"n": scen.n, "t": scen.t, "keygen": format!("{:?}", scen.phases[0][0]), "root_class": scen.extra["root_class"], "wanted_cell": format!("{cell:03b}"), "reached": reached, "faults": scen.faults}));
